@@ -887,6 +887,10 @@ fn judge_robust<V: prio::vdaf::Vdaf, A: Adapter<V>>(plan: &PlanA, pass: &PassOut
             // channels), so the robust oracle is not applied to such a job.
             let nagg = v.len();
             let transplanted = mine.iter().filter_map(|e| e.transplant).any(|(_, round, src)| (0..nagg as u8).all(|j| mine.iter().any(|e| e.transplant == Some((j, round, src)))));
+            // likewise a round in which one sender's share was lost AND an extra (duplicated or all-zero) share was
+            // injected: together they substitute a forged share for a genuine one
+            let substituted = mine.iter().filter_map(|e| e.subst).any(|(k, round)| k == 0 && mine.iter().any(|e| e.subst == Some((1, round))));
+            let transplanted = transplanted || substituted;
             if fin && transplanted && record {
                 ctx.counters.inc("robust.not_judged_complete_verifier_share_transplant");
             }
